@@ -431,3 +431,36 @@ pub fn run_columns(seed: u64, count: usize, out: &mut dyn Write) {
         out.write_all(b"\n").unwrap();
     }
 }
+
+/// Huge exact-identity forests (gen::huge_dom): logged by fingerprint only.
+pub fn run_huge(seed: u64, count: usize, out: &mut dyn Write) {
+    std::panic::set_hook(Box::new(|_| {}));
+    let mut rng = StdRng::seed_from_u64(seed);
+    for i in 0..count {
+        let dom = gen::huge_dom(&mut rng, i + seed as usize);
+        let roots: Vec<Ref> = dom.root().children().to_vec();
+        let mut ev = json!({"ep": format!("binhuge:{}:{}", seed, i), "op": "bin_fp", "fp_before": crate::pval::forest_fp(&dom, &roots),
+                            "instances": dom.descendants().count() - 1, "modes": {}});
+        for c in [CompressionType::None, CompressionType::Lz4, CompressionType::Zstd] {
+            let mut m = json!({});
+            match write_bin(&dom, &roots, c) {
+                Ok(data) => {
+                    m["write"] = json!("ok");
+                    m["bytes"] = json!(data.len());
+                    match read_bin(&data) {
+                        Ok(back) => {
+                            m["read"] = json!("ok");
+                            let kids: Vec<Ref> = back.root().children().to_vec();
+                            m["fp_after"] = json!(crate::pval::forest_fp(&back, &kids));
+                        }
+                        Err(e) => m["read"] = json!(outcome_class(&e)),
+                    }
+                }
+                Err(e) => m["write"] = json!(outcome_class(&e)),
+            }
+            ev["modes"][compression_name(c)] = m;
+        }
+        serde_json::to_writer(&mut *out, &ev).unwrap();
+        out.write_all(b"\n").unwrap();
+    }
+}
